@@ -11,6 +11,7 @@ import Driver.Exec
 import Driver.Cancel
 import Driver.Launch
 import Driver.Shell
+import Driver.Staging
 open Lean
 
 /-- line protocol: one JSON op per input line, one canonical JSON answer per line -/
@@ -37,5 +38,6 @@ def main (args : List String) : IO UInt32 := do
   | ["cancel"] => loop stdin Driver.Cancel.handle; return 0
   | ["launch"] => loop stdin Driver.Launch.handle; return 0
   | ["shell"] => loop stdin Driver.Shell.handle; return 0
+  | ["staging"] => loop stdin Driver.Staging.handle; return 0
   | ["cause"] => loop stdin Driver.AgentCause.handle; return 0
   | _ => IO.eprintln "usage: rpmodel <suite>"; return 2
